@@ -137,11 +137,9 @@ def oracle_min(info):
     ign = [e for e in H.edges() if "flow" not in H.edges[e]] + [(v + "|in", v + "|out") for v in info["ignore"]]
     cons = []
     for c in info["cons"]:
-        es = []
-        for i, v in enumerate(c):
-            es.append((v + "|in", v + "|out"))
-            if i + 1 < len(c): es.append((v + "|out", c[i + 1] + "|in"))
-        cons.append(es)
+        # a node-level constraint is the sequence of the nodes' expansion edges only (NodeExpandedDiGraph docs):
+        # the nodes must be visited by one path, not necessarily consecutively
+        cons.append([(v + "|in", v + "|out") for v in c])
     return oracles.min_fd(H, "flow", is_int, ignore=ign, cons=cons, kmax=4)
 
 
